@@ -177,6 +177,7 @@ var specC29o = vstat.Spec[c29oCase]{
 	Gen:      genC29o,
 	Check:    checkC29o,
 	Inflight: true,
+	Confirm:  true,
 }
 
 func TestC29Opener(t *testing.T)       { vstat.Check(t, specC29o) }
@@ -590,6 +591,7 @@ var specC29 = vstat.Spec[c29Case]{
 	Gen:      genC29,
 	Check:    checkC29,
 	Inflight: true,
+	Confirm:  true,
 }
 
 func TestC29Subs(t *testing.T)       { vstat.Check(t, specC29) }
